@@ -60,6 +60,10 @@ def gen_case(rng, idx, tier):
     backend = {t["name"]: rng.choice(["unknown", "unknown", "completed"]) for t in dag["targets"]}
     # some source files are symbolic links to data kept outside the project; the link's own timestamp differs
     symlinks = {s: rng.choice([0, 3]) for s in dag["sources"] if rng.random() < 0.2}
+    # one source may be dated the Unix epoch (mtime exactly 0): it exists and is older than everything else
+    epoch = rng.choice(sorted(dag["sources"])) if dag["sources"] and rng.random() < 0.2 else None
+    if epoch is not None and epoch not in symlinks:
+        ticks[epoch] = -1
     return {
         # scale of the mtime grid: 10 s, 250 ms (several stamps inside one second) or 2 ms
         "tick_ns": rng.choice([10_000_000_000, 10_000_000_000, 250_000_000, 2_000_000]),
@@ -153,6 +157,9 @@ def materialise(case, proj, variant):
     for f, tk in case["ticks"].items():
         if f in case.get("symlinks", {}) and tk is not None:
             proj.set_file(f, tk, symlink=True, link_tick=case["symlinks"][f])
+        elif tk == -1:
+            proj.set_file(f, 0)
+            os.utime(proj.path(f), ns=(0, 0))  # the Unix epoch itself
         else:
             proj.set_file(f, tk)
     proj.write_workflow(gen.render_workflow(variant))
